@@ -36,6 +36,7 @@ LINES = [
     ("cont+", "     +{n})"),
     ("cont$", "     $ {n})"),
     ("contx", "     x w{n})"),
+    ("cont!", "     !  e{n})"),
     ("contmid", "     &  m{n},"),
     ("zero", "     0v{n} = {n}"),
     ("cC", "C comment {n}"),
@@ -48,6 +49,8 @@ LINES = [
     ("long", PAD + "u{n} = {n}|72|SEQ{n}"),
     ("longbang", PAD + "u{n} = {n}|72|!SEQ{n}"),
     ("longopen", PAD + "y{n} = g({n},|72|SEQ{n}"),
+    ("longopen80", PAD + "y{n} = g({n},|72| + q{n} + r{n},"),
+    ("longstmt80", PAD + "t{n} = {n}|72| + q{n} + r{n}"),
     ("cpp", "#define X{n}"),
     ("inlinec", PAD + "x{n} = {n} ! c{n}"),
     ("inlined", PAD + "x{n} = {n} !! d{n}"),
@@ -257,7 +260,7 @@ def render_free(items):
     return "\n".join(out) + "\n"
 
 
-CMARKS = ["&", "1", "+", "$", "x", "*", "9"]
+CMARKS = ["&", "1", "+", "$", "x", "*", "9", "!"]
 
 
 def render_fixed(items, breaks=(), comment_style=0, seqfield=False, inline_doc=False, labels=False):
